@@ -1,0 +1,80 @@
+//go:build verif
+
+package join
+
+// Contracts for the verification harness under /verif (comment-only file).
+//
+// C15, single-step contract of the join action (first / next are the
+// uninterpreted outcomes of the start / continue classification of the value):
+//
+//   time-out event              -> flush, Discard
+//   field absent                -> flush if joining, Pass
+//   first                       -> flush if joining; hold this event; buffer = value; Hold
+//   joining && !first && next   -> Collapse; buffer += value iff max_event_size == 0 or len(buffer) < it
+//   otherwise                   -> flush if joining, Pass
+//
+// Plugin invariant: isJoining == (initial != nil).
+
+//@ func (*Plugin).flush
+//@   ghost nprop int = 0
+//@   option allow-exit yes
+//@   ensures !p.isJoining && p.initial == nil
+//@   ensures old(p.initial) != nil ==> nprop == 1
+//@   assert at "p.initial = nil" event == old(p.initial)
+//@   callee Propagate(e)
+//@     requires e == event && e != nil && nprop == 0
+//@     preserves Plugin
+//@     set nprop := nprop + 1
+//@   callee Dig(path)
+//@     preserves Plugin
+//@   callee MutateToString(s)
+//@     preserves Plugin
+
+//@ func (*Plugin).isNextOK
+//@   ghost m bool = false
+//@   pure
+//@   ensures p.config.NextCheck == nil ==> result == (m != p.negate)
+//@   callee MatchString(s) (r)
+//@     pure
+//@     set m := r
+//@   callee NextCheck(s) (r)
+//@     pure
+
+//@ func (*Plugin).Do
+//@   option allow-exit yes
+//@   ghost timeout bool = false
+//@   ghost absent bool = false
+//@   ghost first bool = false
+//@   ghost next bool = false
+//@   ghost nflush int = 0
+//@   ghost len0 int = 0
+//@   requires event != nil && p.isJoining == (p.initial != nil)
+//@   setat "if event.IsTimeoutKind() {" len0 := len(p.buff)
+//@   ensures p.isJoining == (p.initial != nil)
+//@   ensures timeout ==> result == pipeline.ActionDiscard && nflush == 1
+//@   ensures !timeout && absent ==> result == pipeline.ActionPass && nflush == ite(old(p.isJoining), 1, 0)
+//@   ensures !timeout && !absent && first ==> result == pipeline.ActionHold && p.initial == event && p.isJoining && nflush == ite(old(p.isJoining), 1, 0)
+//@   ensures !timeout && !absent && !first && old(p.isJoining) && next ==> result == pipeline.ActionCollapse && nflush == 0 && p.initial == old(p.initial)
+//@   ensures !timeout && !absent && first ==> len(p.buff) == len(value) && seqeq(p.buff, value, 0)
+//@   ensures !timeout && !absent && !first && old(p.isJoining) && next && (p.maxEventSize == 0 || len0 < p.maxEventSize) ==> len(p.buff) == len0 + len(value) && seqeq(p.buff[len0:], value, 0)
+//@   ensures !timeout && !absent && !first && old(p.isJoining) && next && !(p.maxEventSize == 0 || len0 < p.maxEventSize) ==> len(p.buff) == len0
+//@   ensures !timeout && !absent && !first && !(old(p.isJoining) && next) ==> result == pipeline.ActionPass && nflush == ite(old(p.isJoining), 1, 0) && !p.isJoining
+//@   callee IsTimeoutKind() (r)
+//@     set timeout := r
+//@   callee Dig(path) (n)
+//@     pure
+//@     set absent := n == nil
+//@   callee AsString()
+//@     pure
+//@   callee IsString()
+//@     pure
+//@   callee MatchString(s) (r)
+//@     pure
+//@     set first := r
+//@   callee FirstCheck(s) (r)
+//@     pure
+//@     set first := r
+//@   callee isNextOK(v) (r)
+//@     set next := r
+//@   callee flush()
+//@     set nflush := nflush + 1
